@@ -436,3 +436,154 @@ def _mk_late(family):
 
 for _f in ('json', 'yaml', 'msgpack', 'xml', 'soap11'):
     _mk_late(_f)
+
+
+# ---------------------------------------------------------------------------------------------------------------
+# deductive: the xsi:type marker, for every attribute text, prefix and namespace binding (z3 strings)
+
+class _MarkedElt(object):
+    """What from_element reads of an element before it enters a handler: attributes and the in-scope prefix map."""
+    def __init__(self, attrs, nsmap):
+        self._attrs, self.nsmap = attrs, nsmap
+        self.tag, self.text, self.sourceline = '{%s}v' % TNS, None, 1
+
+    def get(self, k, d=None):
+        return self._attrs.get(k, d)
+
+
+def _mk_marker(pname, P, dkind):
+    @obligation('C16.marker.resolve.%s.%s' % (pname, dkind), targets=['spyne.protocol.xml:XmlDocument.from_element'],
+                desc="for EVERY xsi:type attribute text t, every prefix p and every namespace n bound to p in scope (all three "
+                     "symbolic text): from_element enters the handler of class K other than the declared one only if "
+                     "t == p + ':' + type_name(K) with n == namespace(K) and K derived from the declared class; conversely "
+                     "the marker text the emitter writes for K (prefix ':' type name, prefix bound to K's namespace) always "
+                     "enters K's handler; every other text ends in ValidationError, never in another class",
+                assumptions=["str.split(':', 1) modelled exactly (first occurrence); '{%s}%s' % (ns, name) as concatenation",
+                             "closed world for the registry: the verification interface's classes (a depth-3 tree, a sibling "
+                             "branch, an unrelated class, builtins)",
+                             "the element is a stand-in exposing what from_element reads before entering a handler "
+                             "(.get, .nsmap); the native replay uses the same stand-in with the counter-model's texts"])
+    def ob(c):
+        import z3
+        from spyne.context import MethodContext
+        from spyne.server import ServerBase
+        from spyne.error import ValidationError
+        from pyvc.text import text_eq
+        validator = c.choose(['soft', None], 'validator')
+        prot = P(validator=validator)
+        prot.polymorphic = True
+        got_ = []
+        Svc, (A, B, C, B2, U) = _svc(got_)
+        app = Application([Svc], TNS, in_protocol=prot, out_protocol=P())
+        ctx = MethodContext(ServerBase(app), MethodContext.SERVER)
+        declared = {'A': A, 'B': B, 'Bvar': B.customize(min_occurs=1), 'B2': B2}[dkind]
+        o_decl = getattr(declared, '__orig__', None) or declared
+        t, p, n = c.str('xsi_type_text'), c.str('prefix'), c.str('bound_namespace')
+        if c.concrete:
+            c.assume(':' not in p and len(p) > 0)
+        else:
+            c.assume(z3.Not(z3.Contains(p.t, z3.StringVal(':'))))
+            c.assume(z3.Length(p.t) > 0)
+        elt = _MarkedElt({XSI_TYPE_KEY: t}, {p: n})
+        entered = []
+
+        class _Handlers(object):
+            def __getitem__(self, cls):
+                def handler(ctx_, cls_, element):
+                    entered.append(cls_)
+                    return None
+                handler._pyvc_native = True
+                return handler
+        prot.deserialization_handlers = _Handlers()
+        out = c.run(prot.from_element, ctx, declared, elt)
+        tree = {'A': A, 'B': B, 'C': C, 'B2': B2, 'Unrelated': U}
+
+        def marker_of(K):
+            if c.concrete:
+                return t == p + ':' + K.get_type_name() and n == K.get_namespace()
+            return z3.And(t.t == z3.Concat(p.t, z3.StringVal(':' + K.get_type_name())), n.t == z3.StringVal(K.get_namespace()))
+        if out.returned:
+            c.check('handler_entered_once', len(entered) == 1, detail=len(entered))
+            got = entered[0]
+            o_got = getattr(got, '__orig__', None) or got
+            c.check('entered_class_derives_from_declared', issubclass(o_got, o_decl), detail=(repr(got), repr(declared)))
+            if o_got is o_decl:
+                c.check('declared_customisation_kept', got is declared, detail=(repr(got), repr(declared)))
+            # soundness: whichever class was entered, the text named exactly that class
+            c.check('entered_class_is_the_named_one', marker_of(o_got), detail=repr(got))
+        else:
+            c.check('rejected_with_validation_error', out.raised_a(ValidationError), detail=repr(out))
+            # completeness: a marker the emitter writes for a class derived from the declared one is never rejected
+            for name, K in sorted(tree.items()):
+                if issubclass(K, o_decl):
+                    c.check('emitted_marker_of_%s_not_rejected' % name, (not marker_of(K)) if c.concrete else z3.Not(marker_of(K)), detail=name)
+    return ob
+
+
+XSI_TYPE_KEY = '{%s}type' % XSI
+for _pn, _P in (('XmlDocument', XmlDocument), ('Soap11', Soap11)):
+    for _dk in ('A', 'B', 'Bvar', 'B2'):
+        _mk_marker(_pn, _P, _dk)
+
+
+# ---------------------------------------------------------------------------------------------------------------
+# the document helpers of spyne.util.dictdoc are a public way to the same emitters: the polymorphic switch must arrive
+
+_HELPERS = ['get_object_as_json', 'get_object_as_json_doc', 'get_object_as_yaml', 'get_object_as_yaml_doc',
+            'get_object_as_msgpack', 'get_object_as_msgpack_doc']
+
+
+def _mk_helper(hname):
+    @obligation('C16.helpers.%s' % hname, targets=['spyne.util.dictdoc:%s' % hname],
+                bounded="a depth-3 class tree with a sibling branch x polymorphic on/off x one base-typed member and one "
+                        "Array(base) member",
+                desc="spyne.util.dictdoc.%s(obj, cls, ignore_wrappers=False, complex_as=dict, polymorphic=p): every "
+                     "base-typed slot is tagged with the runtime class and carries exactly its flat fields when p is on, "
+                     "and the declared class with exactly its fields when p is off" % hname)
+    def ob(c):
+        import msgpack
+        import yaml
+        from spyne.util import dictdoc as DD
+        A, B, C, B2, U = make_tree()
+        Holder = type(ComplexModel)('HelperHolder', (ComplexModel,), {
+            '__namespace__': TNS, '_type_info': [('one', A), ('many', Array(A))]})
+        poly = c.choose([True, False], 'polymorphic')
+        K = c.choose([A, B, C, B2], 'runtime_class')
+        inst = Holder(one=make_inst(K), many=[make_inst(A), make_inst(K), make_inst(C)])
+        out = c.run(getattr(DD, hname), inst, Holder, ignore_wrappers=False, complex_as=dict, polymorphic=poly)
+        c.check('returns', out.returned, detail=repr(out))
+        if not out.returned:
+            return
+        doc = out.value
+        if isinstance(doc, (bytes, str)):
+            doc = (json.loads(doc.decode('utf8') if isinstance(doc, bytes) else doc) if 'json' in hname else
+                   yaml.safe_load(doc) if 'yaml' in hname else msgpack.unpackb(doc, raw=False))
+
+        def norm(d):
+            if isinstance(d, bytes):
+                return d.decode('utf8')
+            if isinstance(d, dict):
+                return dict((norm(k), norm(v)) for k, v in d.items())
+            if isinstance(d, (list, tuple)):
+                return [norm(e) for e in d]
+            return d
+        doc = norm(doc)
+        while isinstance(doc, list) and len(doc) == 1:
+            doc = doc[0]
+        h = doc.get('HelperHolder', doc) if isinstance(doc, dict) else {}
+
+        def slot_ok(slot, runtime):
+            want_cls = runtime if poly else A
+            if not (isinstance(slot, dict) and list(slot) == [want_cls.get_type_name()]):
+                return False
+            body = slot[want_cls.get_type_name()]
+            return isinstance(body, dict) and sorted(body) == sorted(wire_names(want_cls))
+        c.check('member_slot_tagged_and_complete', slot_ok(h.get('one'), K), detail=(poly, K.__name__, h.get('one')))
+        many = h.get('many') or []
+        c.check('array_slots_tagged_and_complete', len(many) == 3 and all(slot_ok(s, k) for s, k in zip(many, [A, K, C])),
+                detail=(poly, K.__name__, many))
+    return ob
+
+
+for _hn in _HELPERS:
+    _mk_helper(_hn)
